@@ -124,7 +124,7 @@ def run(ctx, factor):
                 "(iii) real `objdump -d -M att` output for random code bytes: model vs implementation and an independent "
                 "line classifier as oracle; (iv) the listings under /repo/tests/assembly; non-trivial = both sides "
                 "produced a stream")
-    n = ctx.budget(300, 12000) * factor
+    n = ctx.budget(600, 12000) * factor
     for _ in range(n):
         lines = gen_lines.listing(g, g.int(1, 12))
         r = ctx.driver.call({"op": "linespec", "lines": lines})["ok"]
@@ -152,7 +152,7 @@ def run(ctx, factor):
     # AVX-512 operand decorations (`0x40(%rdi){1to16}`, `%zmm1{%k1}{z}`, `(bad){%k3}`, `{rn-sae}`), segment overrides, x87
     # stack registers: outside the LineSpec grammar, printed by objdump all the same - one record per line, never a failure
     from props import c10
-    for _ in range(ctx.budget(60, 2000) * factor):
+    for _ in range(ctx.budget(120, 2000) * factor):
         text, oracle = c10.decorated_listing(g, with_oracle=True)
         compare_text(ctx, text, "avx512-decorated-operands", oracle=oracle)
     for _ in range(ctx.budget(6, 400) * factor):
